@@ -2,6 +2,7 @@ package main
 
 import (
 	"bytes"
+	"encoding/binary"
 	"fmt"
 	"strings"
 	"sync"
@@ -163,7 +164,31 @@ func runC04(c *Ctx) {
 				map[string]interface{}{"file": toInts(b)})
 		}
 	}
-	c.Cov["encode_outputs_checked"] = len(encs)
+	// a file larger than any 16-bit length: Encode hashes its whole data section in one go
+	{
+		h := fit.NewHeader(fit.V20, true)
+		f, _ := fit.NewFile(fit.FileTypeActivity, h)
+		f.FileId.Manufacturer = fit.ManufacturerDevelopment
+		a, _ := f.Activity()
+		for k := 0; k < 7000; k++ {
+			r := fit.NewRecordMsg()
+			r.Timestamp = time.Unix(1500000000+int64(k), 0).UTC()
+			r.HeartRate = uint8(60 + k%100)
+			r.Power = uint16(k % 1000)
+			a.Records = append(a.Records, r)
+		}
+		for _, arch := range []binary.ByteOrder{binary.LittleEndian, binary.BigEndian} {
+			var buf bytes.Buffer
+			if err := fit.Encode(&buf, f, arch); err == nil {
+				d, ig, pn := rejects(buf.Bytes())
+				if d || ig || pn {
+					c.report(fmt.Sprintf("encode-output-rejected:large:decode=%v,integrity=%v,panic=%v", d, ig, pn),
+						fmt.Sprintf("Encode succeeded but its output (7000 records, %d bytes) is rejected: Decode error=%v CheckIntegrity error=%v panic=%v", buf.Len(), d, ig, pn), nil)
+				}
+			}
+		}
+	}
+	c.Cov["encode_outputs_checked"] = len(encs) + 2
 	pool = append(pool, encs...)
 
 	// 2. burst sweep
@@ -212,6 +237,11 @@ func runC04(c *Ctx) {
 			bb[bit/8] ^= 1 << uint(bit%8)
 			run("integrity", bb, fmt.Sprintf("file %d, bit %d flipped", i, bit))
 			run("decode", bb, fmt.Sprintf("file %d, bit %d flipped", i, bit))
+			// a corrupted file is rejected under every option set, too
+			id++
+			oc := p.runCall(id, "decode", bb, plain, CallOpts{UF: 1, UM: k % 2, Log: (k / 2) % 2}, true)
+			oc.Note = fmt.Sprintf("file %d, bit %d flipped, decode options", i, bit)
+			calls = append(calls, oc)
 		}
 	}
 	// a valid file cut between two records (nothing of it is malformed, only the
